@@ -1,0 +1,21 @@
+//go:build verif
+
+// Contracts for the verification machinery in /verif (govc). Comment-only.
+
+package config
+
+// Option getters (function values of these named types) only read configuration
+// state; they do not modify state of other packages (assumed; the getters built
+// by this package are under contract for C04).
+//@ func type.BoolOption
+//@   trusted
+//@   pure
+//@ func type.StringOption
+//@   trusted
+//@   pure
+//@ func type.IntOption
+//@   trusted
+//@   pure
+//@ func type.StringArrayOption
+//@   trusted
+//@   pure
